@@ -7,6 +7,8 @@ R4 Arc<FS> forwarding, R5 override completeness
 R6 Context::from(&InHeader)
 R7 the pre-dispatch oversize refusal admits every request the negotiated limits allow
 R8 request-side conversions (SetattrIn -> stat64) feed every field from the wire field of the same meaning
+R9 name decoding: a name ends at the first NUL; the second of two names is accepted whenever one byte follows the first
+R10 ZcReader/ZcWriter are pure adapters (one call on the wrapped reader/writer, count and offset unchanged)
 """
 import json
 import os
@@ -423,3 +425,4 @@ def fs_param_names(F, method, trait=common.FS_TRAIT):
         if d.get("arg") is not None and len(d.get("place", [])) == 1:
             out[d["place"][0]] = d["name"]
     return [out.get(i, "arg%d" % i) for i in range(2, b.argc + 1)]
+META["text"] += " " + 'Also: the two name decoders (first NUL, second name accepted whenever a byte follows), ZcReader/ZcWriter are pure adapters.'
